@@ -1,7 +1,7 @@
 """C18 — gamut-size and divergence metrics equal their geometric / information definitions."""
 import math
 import numpy as np
-from common import F, rs, vs, ms, dyadic, close, call
+from common import F, rs, vs, ms, dyadic, close, call, as_given
 from p16 import f_of_bits
 
 
@@ -54,18 +54,23 @@ def run(R):
     R.rule = ("point clouds in 1-5 dimensions (random dyadic, large >300 points, flat/rank-deficient of every affine rank below the "
               "dimension - exact affine images and rotated flats, with more points than a simplex -, boxes, simplices, polygons also "
               "embedded in 3-4 dimensions with interior points; gamut clouds from fewer sources than receptors incl. faces of the "
-              "simplex, estimator systems with fewer sources than receptors), "
+              "simplex, gamut clouds strictly inside the chromaticity simplex, touching its boundary (exact zeros in some but not all "
+              "channels), containing its corners (single-channel captures; volume compared with the unit-edge regular simplex) and "
+              "whole-number captures handed in as integer arrays / lists / Fortran / strided views; estimator systems with fewer "
+              "sources than receptors, with everywhere-positive, banded (compact overlapping support) and scattered-zero filters and "
+              "broad or band-limited sources), "
               "rigid motions (Cayley rotations), positive scalings, added points, seeds; non-negative vector pairs incl. zeros and "
               "unequal totals for the divergence. Mean width is compared with the Float run of the model on the SAME direction "
               "sample (regenerated from the seed), and with the closed form perimeter/pi * Gamma(3/2)Gamma(d/2)/Gamma((d+1)/2) on planar polygons in d dimensions; volume with closed forms; gamut ratios with "
-              "their stated invariances; divergence with the Float model and the proved bounds. Non-trivial: dimension >= 2 with "
+              "their stated invariances (intensity scale, 1 relative to itself and positive whenever two chromaticities differ, <= 1 "
+              "relative to a superset, unchanged when non-negative mixtures of the rows are added = same convex hull); divergence with the Float model and the proved bounds. Non-trivial: dimension >= 2 with "
               ">= 4 distinct points, or a divergence pair with unequal totals.")
     jobs = []
     for k in range(n):
         if not R.want(k):
             continue
         rng = R.rng(1, k)
-        what = str(rng.choice(["width", "width", "volume", "gamut", "jsd"]))
+        what = str(rng.choice(["width", "width", "volume", "gamut", "gamut", "jsd"]))
         c = dict(k=k, what=what)
         R.count("what:" + what)
         if what == "width":
@@ -109,7 +114,8 @@ def run(R):
                 exact = abs(np.linalg.det(V[1:] - V[0])) / math.factorial(d) if d >= 2 else float(V.max() - V.min())
                 X = V
                 if exact < 1e-6:
-                    fam = "box"; X = np.array([[0.0] * d, [1.0] * d]); exact = 0.0 if d >= 2 else 1.0
+                    # degenerate simplex drawn: use a segment instead -- two points; the volume within the affine span is its length
+                    fam = "box"; X = np.array([[0.0] * d, [1.0] * d]); exact = math.sqrt(d)
             elif fam == "polygon":
                 d = 2; X = polygon(rng, int(rng.integers(3, 9)))
                 x, y = X[:, 0], X[:, 1]; exact = 0.5 * abs(np.dot(x, np.roll(y, -1)) - np.dot(y, np.roll(x, -1)))
@@ -141,17 +147,51 @@ def run(R):
                 X = W @ A
                 if metric == "width":       # a full-dimensional superset (per direction the width cannot shrink)
                     sup = np.vstack([X, dyadic(rv, 0.125, 4, 3, size=(nf + 2, nf))])
+            # where the cloud sits in the chromaticity simplex: strictly inside (all captures positive), touching its boundary
+            # (exact zeros in some but not all channels of some rows), containing its corners (single-channel captures, so that
+            # the hull is the whole simplex), or whole-number captures 0..4 (zeros included; may be handed in with an integer dtype)
+            rb = R.rng(9, k)
+            where = "flat" if gflat else str(rb.choice(["positive", "positive", "boundary", "corners", "whole"]))
+            if where == "boundary":
+                mask = rb.random(X.shape) < 0.35
+                mask[np.arange(npts), rb.integers(nf, size=npts)] = False      # every row keeps a positive channel
+                X = np.where(mask, 0.0, X)
+            elif where == "corners":
+                rows = [np.diag(dyadic(rb, 0.25, 4, 2, size=nf))]
+                ni_ = int(rb.integers(0, 4)); nb_ = int(rb.integers(0, 3))
+                if ni_:
+                    rows.append(dyadic(rb, 0.125, 4, 3, size=(ni_, nf)))
+                if nb_:
+                    Bd = dyadic(rb, 0.125, 4, 3, size=(nb_, nf)); Bd[np.arange(nb_), rb.integers(nf, size=nb_)] = 0.0
+                    rows.append(Bd)
+                X = np.vstack(rows)
+                X = X[rb.permutation(len(X))]
+            elif where == "whole":
+                X = dyadic(rb, 0, 4, 0, size=(npts, nf))
+                X[X.sum(1) == 0, 0] = 1.0
+            if len(X) != npts:
+                npts = len(X); scales = dyadic(rb, 0.25, 8, 2, size=(npts, 1))
             sub = X[: max(nf + 1, npts // 2)]
             # volume is measured within the affine span: the subset/superset comparison needs equal affine rank
             same_rank = metric == "width" or chroma_rank(sub) == chroma_rank(X)
-            c.update(nf=nf, X=X, metric=metric, seed=seed, flat=gflat)
+            # further captures that are non-negative mixtures of the rows: their chromaticities are convex combinations of the
+            # cloud's chromaticities, so the convex hull -- and with it mean width and volume -- is the same
+            Wm = dyadic(rb, 0, 1, 3, size=(int(rb.integers(1, 5)), npts)); Wm[:, int(rb.integers(npts))] += 0.125
+            mixed = np.vstack([X, Wm @ X])
+            Cx = X / X.sum(1, keepdims=True)
+            distinct = bool(np.max(np.abs(Cx - Cx[0])) > 1e-6)
+            Xg = as_given(rb, X.copy(), R, "X")
+            c.update(nf=nf, X=X, metric=metric, seed=seed, flat=gflat, cloud=where, mixtures=Wm @ X,
+                     given_as=("list" if isinstance(Xg, list) else str(Xg.dtype)))
             R.count("gamut:" + metric); R.count("gamut-cloud:%s" % ("flat:" + gflat if gflat else "full-dimensional"))
+            R.count("gamut-where:" + where); R.count("gamut-rows-with-zero-channel:%s" % ("none" if not np.any(X == 0) else ("all" if np.all(np.any(X == 0, axis=1)) else "some")))
 
             def impl():
                 g = lambda Y, **kw: dreye.compute_gamut(Y, metric=metric, seed=seed, **kw)  # noqa: E731
-                return g(X), g(X * scales), g(X, relative_to=X), g(sub, relative_to=X), (g(X, relative_to=sup) if sup is not None else 0.0)
+                return (g(Xg), g(X * scales), g(X, relative_to=X), g(sub, relative_to=X), (g(X, relative_to=sup) if sup is not None else 0.0),
+                        g(mixed), g(X, relative_to=mixed))
             st, out = call(impl)
-            jobs.append((c, st, out, dict(same_rank=same_rank)))
+            jobs.append((c, st, out, dict(same_rank=same_rank, distinct=distinct, where=where, nf=nf, metric=metric)))
         else:
             m = int(rng.integers(2, 9))
             P = dyadic(rng, 0, 4, 3, size=m); Q = dyadic(rng, 0, 4, 3, size=m)
@@ -209,11 +249,25 @@ def run(R):
             if abs(v - ex) > 1e-9 * (abs(ex) + 1.0):
                 R.failB(dict(c, impl=v), "volume %r, closed form %r (%s)" % (v, ex, c["family"]), sig + ":" + c["family"])
         elif what == "gamut":
-            g, gs, gself, gsub, gsup = [float(v) for v in out]
+            g, gs, gself, gsub, gsup, gmix, gxmix = [float(v) for v in out]
             if abs(gs - g) > 1e-9 * (abs(g) + 1):
                 R.failB(dict(c, impl=[g, gs]), "gamut metric changed when rows were rescaled in intensity: %r -> %r" % (g, gs), sig + ":intensity-scale")
-            if g != 0 and abs(gself - 1.0) > 1e-12:
+            if X_["distinct"] and not g > 0:
+                # two different chromaticities span a hull of positive width / positive volume within its affine span
+                R.failB(dict(c, impl=g), "gamut metric of a cloud with at least two different chromaticities is %r, not positive" % g, sig + ":not-positive")
+            if (g != 0 or X_["distinct"]) and not abs(gself - 1.0) <= 1e-12:
                 R.failB(dict(c, impl=gself), "gamut relative to itself is %r" % gself, sig + ":self")
+            if not abs(gmix - g) <= 1e-9 * (abs(g) + 1):
+                R.failB(dict(c, impl=[g, gmix]), "gamut metric changed (%r -> %r) when captures were added whose chromaticities are convex combinations of the cloud's (same convex hull)" % (g, gmix),
+                        sig + ":hull-only")
+            if gxmix > 1.0 + 1e-9:
+                R.failB(dict(c, impl=gxmix), "gamut relative to a superset (the cloud plus mixtures of its rows) is %r > 1" % gxmix, sig + ":superset")
+            if X_["where"] == "corners" and X_["metric"] == "volume":
+                # the hull is the whole chromaticity simplex: a regular simplex with unit edges in nf-1 dimensions
+                m_ = X_["nf"] - 1
+                ex = math.sqrt(m_ + 1) / (math.factorial(m_) * math.sqrt(2.0 ** m_))
+                if not abs(g - ex) <= 1e-9:
+                    R.failB(dict(c, impl=g, closed_form=ex), "gamut volume of a cloud containing all corners of the chromaticity simplex is %r, the unit-edge regular simplex has %r" % (g, ex), sig + ":corners-volume")
             if X_["same_rank"] and gsub > 1.0 + 1e-9:
                 R.failB(dict(c, impl=gsub), "gamut of a subset relative to its superset is %r > 1" % gsub, sig + ":superset")
             if gsup > 1.0 + 1e-9:
@@ -272,8 +326,35 @@ def run(R):
             # still at most that of the perfect system (volumes of different affine rank are not comparable)
             ns = int(rv.integers(2, nf)); metric = "width"
             src = dyadic(rv, 0, 1, 3, size=(ns, nd_)) + 0.125
-        c = dict(k=k, what="estimator_gamut", filters=filt, sources=src, metric=metric)
+        # support of the filters: everywhere positive (smooth templates), or compact -- contiguous overlapping bands (box /
+        # triangular filters) or scattered exact zeros --, so that the single-wavelength captures of the perfect system have
+        # exact zeros in some channels (they lie on the boundary of the chromaticity simplex); sources broad or band-limited
+        rs_ = R.rng(10, k)
+        support = str(rs_.choice(["positive", "banded", "scattered"]))
+        if support == "banded":
+            width_ = int(rs_.integers(max(2, nd_ // nf), nd_))
+            starts = np.round(np.linspace(0, nd_ - width_, nf)).astype(int)
+            band = np.zeros((nf, nd_), dtype=bool)
+            for i_, s0 in enumerate(starts):
+                band[i_, s0:s0 + width_] = True
+            filt = np.where(band, filt, 0.0)
+        elif support == "scattered":
+            zm = rs_.random(filt.shape) < 0.4
+            zm[np.arange(nf), rs_.integers(nd_, size=nf)] = False
+            filt = np.where(zm, 0.0, filt)
+        src_support = str(rs_.choice(["broad", "broad", "band-limited"]))
+        if src_support == "band-limited":
+            zs = rs_.random(src.shape) < 0.4
+            src = np.where(zs, 0.0, src)
+        if support != "positive" or src_support != "broad":
+            # premise of a registered system: every source is seen by some receptor, and at least two chromaticities exist
+            A_ = filt @ src.T
+            Ch = A_ / np.where(A_.sum(0) > 0, A_.sum(0), 1.0)
+            if np.any(A_.sum(0) <= 0) or np.max(np.abs(Ch - Ch[:, :1])) < 1e-3 or np.linalg.matrix_rank(Ch - Ch[:, :1], tol=1e-6) < min(nf - 1, ns - 1):
+                support += "(degenerate->positive)"; filt = filt + 0.125; src = src + 0.125
+        c = dict(k=k, what="estimator_gamut", filters=filt, sources=src, metric=metric, filter_support=support, source_support=src_support)
         R.count("what:estimator_gamut"); R.count("estimator_gamut:%s" % ("fewer-sources-than-receptors" if ns < nf else "sources>=receptors"))
+        R.count("estimator_gamut:filters-%s" % support); R.count("estimator_gamut:sources-%s" % src_support)
         st, g = call(lambda: dreye.ReceptorEstimator(filt, domain=1.0, sources=src, ub=np.ones(ns)).compute_gamut(metric=metric, seed=1, relative=False))
         R.case(c, (k,))
         if st != "ok":
